@@ -19,6 +19,14 @@ import (
 // concrete definitions of the uninterpreted spec functions, used only when judging a concrete
 // observation (all arguments are ground there)
 var ufunConcrete = map[string]string{
+	// judge only (all arguments are pinned to the observed values): shifts and two's-complement bitwise operations on
+	// unbounded integers, by recursion on the bits (x div 2 / x mod 2 are floor operations, so a negative value is its
+	// infinite sign extension; the recursion ends at 0 or -1)
+	"shl":   "(define-fun-rec shl ((x Int) (n Int)) Int (ite (or (<= n 0) (= x 0)) x (shl (* 2 x) (- n 1))))",
+	"shr":   "(define-fun-rec shr ((x Int) (n Int)) Int (ite (or (<= n 0) (= x 0) (= x (- 1))) x (shr (div x 2) (- n 1))))",
+	"tcand": "(define-fun-rec tcand ((x Int) (y Int)) Int (ite (or (= x 0) (= y 0)) 0 (ite (= x (- 1)) y (ite (= y (- 1)) x (+ (* 2 (tcand (div x 2) (div y 2))) (* (mod x 2) (mod y 2)))))))",
+	"tcor":  "(define-fun-rec tcor ((x Int) (y Int)) Int (ite (= x 0) y (ite (= y 0) x (ite (or (= x (- 1)) (= y (- 1))) (- 1) (+ (* 2 (tcor (div x 2) (div y 2))) (ite (= (+ (mod x 2) (mod y 2)) 0) 0 1))))))",
+	"tcxor": "(define-fun-rec tcxor ((x Int) (y Int)) Int (ite (= x 0) y (ite (= y 0) x (ite (= x (- 1)) (- (- y) 1) (ite (= y (- 1)) (- (- x) 1) (+ (* 2 (tcxor (div x 2) (div y 2))) (ite (= (mod x 2) (mod y 2)) 0 1)))))))",
 	"pow2u":  pow2uTable(),
 	"umul":   "(define-fun umul ((a Int) (b Int)) Int (* a b))",
 	"words":  "(define-fun-rec words ((x Int)) Int (ite (= x 0) 0 (ite (< x 0) (words (- x)) (ite (< x 18446744073709551616) 1 (+ 1 (words (div x 18446744073709551616)))))))",
